@@ -614,3 +614,15 @@ Definition cold_node (w:bool) (mode t0 qmax nsl:Z) (pc:pgncfg) (devs:list dev) (
   {| rn := {| n_w64 := w; n_mode := mode; n_open := 0; n_now := t0; n_pgn := pc; n_devs := devs; n_q := sring_new qmax; n_drv := []; n_addr_changed := false |};
      rx_dev := map (cold_devx w) rxls; r_slots := repeat slot0 (Z.to_nat nsl); r_q := []; r_cfg := cfg;
      r_open_sched := sched_from_now w t0 0; r_sync := 0; r_devinfo_changed := false |}.
+
+(* the harness' prelude for cases that start from an opened node: 700 x (ParseMessages; clock + 1 ms) with an accepting driver,
+   heartbeat switched off unless asked for, IsAddressClaimStarted for every device, then the clock is set to the case's origin *)
+Fixpoint prelude_polls (k:nat) (r:rnode) : rnode :=
+  match k with O => r | S k' => let '(r1, _) := poll r in prelude_polls k' (with_rn r1 (set_now (rn r1) (n_now (rn r1) + 1))) end.
+Fixpoint claim_started_all (k:nat) (r:rnode) (i:Z) : rnode :=
+  match k with O => r | S k' => claim_started_all k' (with_rn r (fst (claim_started (rn r) i))) (i+1) end.
+Definition prelude (r:rnode) (hb:bool) (t0:Z) : rnode :=
+  let r1 := prelude_polls 700 r in
+  let r2 := if hb then r1 else fst (rstep r1 (RSetHeartbeat 0 0)) in
+  let r3 := claim_started_all (length (n_devs (rn r2))) r2 0 in
+  with_rn r3 (set_now (rn r3) t0).
